@@ -6,7 +6,7 @@ pub mod sched;
 pub mod sched_thin;
 
 use rt::run::Engine;
-use rt::tok::{Bump8, Plain16, Plain8, Tok1, Tok16, Tok4, Tok64, Tok8, Tok8b, TokZ};
+use rt::tok::{Big, Bump8, Plain16, Plain8, Tok1, Tok16, Tok4, Tok64, Tok8, Tok8b, TokZ};
 
 #[cfg(feature = "arc-swap")]
 pub fn warm_arc_swap() {
@@ -29,6 +29,7 @@ pub fn sized_engine(shape: &str, prop: &str, max_ops: usize) -> Box<dyn Engine> 
         "tok64" => Box::new(SizedEngine::<Tok64>::new(prop, max_ops)),
         "tokz" => Box::new(SizedEngine::<TokZ<0>>::new(prop, max_ops)),
         "plain8" => Box::new(SizedEngine::<Plain8>::new(prop, max_ops)),
+        "big" => Box::new(SizedEngine::<Big<2100>>::new(prop, max_ops)),
         _ => Box::new(SizedEngine::<Tok8>::new(prop, max_ops)),
     }
 }
